@@ -126,11 +126,11 @@ func c04Body(x *mc.Exec) {
 		}
 		return r
 	}
-	t1 := mk(c04T, "1", map[string]any{"a": "x", "ab": Ptr(int(5)), "one": "u1", "ones": []string{"u2", "u1", "u2"}})
+	t1 := mk(c04T, "1", map[string]any{"a": "x", "ab": Ptr(int(5)), "one": "u1", "ones": []string{"u2", "u1", "u2", "w\v\x01\x7f\U000E0001\"\\"}})
 	t2 := mk(c04T, "2", map[string]any{"a": "", "one": "", "ones": []string{}})
 	u1 := mk(c04U, "u1", map[string]any{"b": true, "r": "1", "one": []string{"2"}})
 	related := map[string]map[string][]string{
-		"t/1": {"one": {"u1"}, "ones": {"u1", "u2", "u2"}}, "t/2": {"one": {}, "ones": {}},
+		"t/1": {"one": {"u1"}, "ones": {"u1", "u2", "u2", "w\v\x01\x7f\U000E0001\"\\"}}, "t/2": {"one": {}, "ones": {}},
 		"u/u1": {"r": {"1"}, "one": {"2"}},
 	}
 
@@ -249,7 +249,12 @@ func c04Body(x *mc.Exec) {
 		}
 		relsObj, _ := o["relationships"].(map[string]any)
 		for _, r := range d.Rels {
-			ro, present := relsObj[r.Name].(map[string]any)
+			raw, listed := relsObj[r.Name]
+			ro, present := raw.(map[string]any)
+			if listed && !present {
+				x.Fail("C04:relationship-shape:"+where, "%s: %s/%s relationship %q is %v, not a relationship object", desc, typ, id, r.Name, raw)
+				continue
+			}
 			if !present {
 				continue
 			}
